@@ -23,8 +23,10 @@
 (*         somebody else), out (ok | missing | borrow | other), pres,      *)
 (*         alive[1..nres], after[1..nres]   classes 0 free 1 shared        *)
 (*         2 exclusive 3 no cell                                           *)
-(*  setup  via, w0[1..nres], out, created, w1[1..nres]      0 = absent     *)
-(*  exec   w0, out, pres, created, after, w1     World::exec = setup+fetch *)
+(*  setup  via, w0[1..nres], out, created, calls, w1[1..nres]  0 = absent  *)
+(*         created: resources whose Default::default() ran, in order;      *)
+(*         calls: resources whose CUSTOM setup handler ran, in order       *)
+(*  exec   w0, out, pres, created, calls, after, w1   World::exec          *)
 (***************************************************************************)
 EXTENDS SysData, TLC, Json, IOUtils
 
@@ -125,12 +127,12 @@ TrSetup ==
      ELSE
        /\ ok' = [ok EXCEPT
                    \* C06: setup of the composite = composition of the member setups, in order
-                   !.setupc = @ /\ e.out = "ok" /\ P_C06_setup(sh, e.w0, dflt, e.created, e.w1),
+                   !.setupc = @ /\ e.out = "ok" /\ P_C06_setup(sh, e.w0, dflt, e.created, e.calls, e.w1),
                    \* C13 (world half): nothing existing modified, exactly the vacant
-                   \* default-provided resources created, Option/Expect forms create nothing
+                   \* handler-provided resources created, Option/Expect forms create nothing
                    !.c13 = @ /\ e.out = "ok" /\ P_C13_world(sh, e.w0, dflt, e.w1)]
        /\ world0' = e.w0 /\ world' = e.w1
-       /\ outc' = [NoRes EXCEPT !.out = e.out, !.created = e.created]
+       /\ outc' = [NoRes EXCEPT !.out = e.out, !.created = e.created, !.calls = e.calls]
        /\ wf' = wf
   /\ phase' = "setup"
   /\ UNCHANGED <<nres, dflt, rep, drift, sh, held0, borrow>>
@@ -150,14 +152,14 @@ TrExec ==
            f == Fetch(sh, P, b0)
        IN
        /\ ok' = [ok EXCEPT
-                   !.setupc = @ /\ P_C06_setup(sh, e.w0, dflt, e.created, e.w1),
+                   !.setupc = @ /\ P_C06_setup(sh, e.w0, dflt, e.created, e.calls, e.w1),
                    !.c13 = @ /\ P_C13_world(sh, e.w0, dflt, e.w1),
                    !.outcome = @ /\ P_C06_outcome(sh, P, b0, e.out),
                    !.release = @ /\ P_C06_release(cls0, e.after)]
        /\ drift' = IF e.out \in {"missing", "borrow"} /\ (e.out # f.out \/ e.pres # f.res)
                    THEN drift + 1 ELSE drift
        /\ world0' = e.w0 /\ world' = e.w1 /\ held0' = b0 /\ borrow' = b0
-       /\ outc' = [NoRes EXCEPT !.out = e.out, !.res = e.pres, !.created = e.created]
+       /\ outc' = [NoRes EXCEPT !.out = e.out, !.res = e.pres, !.created = e.created, !.calls = e.calls]
        /\ wf' = wf
   /\ phase' = "exec"
   /\ UNCHANGED <<nres, dflt, rep, sh>>
